@@ -7,12 +7,11 @@ SPEC = hdr_spec(
     rule=GEN_RULE + "interleaved with Clean (small and real prune depth), Save and Load; every script ends with a full dump (tip, Hash/Header at every height, "
          "every lookup on every header); non-trivial = at least 8 submissions",
     props_file="C01",
-    partial_note="for histories of submissions (any verdicts, automatic clean not due) both sentences are theorems: the tip has maximal accumulated work among all "
-                 "branch tips (C01_tip_maximal_submissions) and the held best-chain headers are linked, Header(k).prev = Hash(k-1), across branch boundaries "
+    partial_note="for histories of submissions from genesis (automatic clean not due; NO assumption on verdicts, since no submission can end in an internal error there: "
+                 "C01_tip_maximal_wf) all three sentences are theorems: the tip has maximal accumulated work among all branch tips and the held best-chain headers are linked, Header(k).prev = Hash(k-1), across branch boundaries "
                  "(C01_chain_linked_submissions); the recorded work is the cumulative block work from genesis, strictly increasing (C01_work_is_cumulative), and no "
                  "header held by any tracked branch carries more work than the reported tip (C01_tip_dominates_submissions). Not yet theorems: the same across "
-                 "Clean/Save/Load/marking (checked by correspondence + monitor on every generated history), the third sentence for the internal branch-update error "
-                 "(monitor C01:error-left-heavier-unreported), arrival-order independence (exercised).")
+                 "Clean/Save/Load/marking (checked by correspondence + monitor on every generated history), arrival-order independence (exercised).")
 
 META = dict(
     technique="Lean 4 proof (specification of Longest(); maximal-tip and linked-forest invariants by induction over submission histories) + model/implementation correspondence + Spec-level monitor",
